@@ -1,5 +1,6 @@
 """C14 — live reload is safe: valid configs take effect, invalid ones change nothing."""
 from mirlib import *
+from common import definition_identity_findings
 
 PARSE = "pgcat::config::parse::{closure#0}"
 RELOAD = "pgcat::config::reload_config::{closure#0}"
@@ -163,6 +164,22 @@ def run(ctx):
         r2.check(bool(pc) and w is None, "reload:always-parses", "reload_config returns only after having parsed the file",
                  "reload_config can return without reading the file (a shortcut on something other than its content, e.g. the modification time): a valid, changed file that a rollback or `cp -p` put in place is silently ignored, "
                  "RELOAD answers as if done while CONFIG and POOLS stay stale", "", w and rl.describe_path(w))
+    # the admin RELOAD is acknowledged only after this very command has read the file: in admin::reload every way to the CommandComplete
+    # passes reload_config and its Ok edge (a reply built on a shortcut - "one is running anyway", "nothing to do" - tells the operator the file is in force when it was never read)
+    ar = F.body("pgcat::admin::reload::{closure#0}")
+    if ar is None:
+        r2.missing("admin::reload")
+    else:
+        asw = switches(ar)
+        rc_ = ar.calls("pgcat::config::reload_config")
+        cc_ = ar.calls("pgcat::messages::command_complete") + ar.calls("pgcat::messages::write_all_half", "pgcat::messages::write_all")
+        okE_, _e, _ = discr_edges(ar, r"ControlFlow<", "Continue", origin_pred=lambda o: o.kind == "call" and o.call.name == "pgcat::config::reload_config", switches_cache=asw)
+        if not okE_:
+            okE_, _e, _ = discr_edges(ar, r"core::result::Result<bool, pgcat::errors::Error>", "Ok", switches_cache=asw)
+        w = ar.uncrossed_path([0], [c.block for c in cc_], edges=set(okE_)) if rc_ and cc_ and okE_ else [0]
+        r2.check(bool(rc_) and bool(cc_) and w is None, "admin-reload:acknowledged-only-after-reload_config", "admin RELOAD is answered only over the Ok edge of reload_config",
+                 "admin RELOAD can be acknowledged (CommandComplete `RELOAD`) without reload_config having run and succeeded for this command: the operator is told the file is in force while CONFIG, POOLS and the server "
+                 "connections are those of the old one", "", w and w != [0] and ar.describe_path(w))
     rcallers = F.callers_of("pgcat::config::reload_config")
     r2.check(set(rcallers) <= {"bin:pgcat::main::{closure#1}", "bin:pgcat::main::{closure#1}::{closure#2}", "pgcat::admin::reload::{closure#0}"}, "reload-callers", "reload_config is called by SIGHUP, autoreload and admin RELOAD only", "reload_config callers: %s" % rcallers)
 
@@ -212,52 +229,8 @@ def run(ctx):
                     reach = fc.reach([c.block], avoid_blocks=users_head)
                     hit = [b_ for b_ in builders if b_ in reach]
                     r3.check(not hit, "reuse=>no-rebuild", "after the reuse insert the iteration ends without building a new pool", "after carrying the pool over, the same iteration still builds a new bb8 pool (the reused pool is replaced / connections dropped)", c.where())
-                # the "unchanged" test must see every part of the definition: for config::Pool and every pgcat struct
-                # reachable through its field types, Hash::hash feeds each field, untransformed, to the hasher
-                todo = ["pgcat::config::Pool"]
-                done = set()
-                while todo:
-                    an = todo.pop()
-                    if an in done:
-                        continue
-                    done.add(an)
-                    adt = F.adts.get(an)
-                    if adt is None or not adt.get("local"):
-                        continue
-                    for v in adt["variants"]:
-                        for f in v["fields"]:
-                            for m_ in re.findall(r"pgcat::[A-Za-z0-9_:]+", f["ty"]):
-                                todo.append(m_)
-                    hb = F.body("<%s as core::hash::Hash>::hash" % an)
-                    if hb is None:
-                        r3.fail("Hash:%s" % an.split("::")[-1], "%s (part of a pool definition) has no Hash impl in the crate" % an)
-                        continue
-                    if adt["kind"] != "struct":
-                        r3.ok("Hash:%s" % an.split("::")[-1], "enum %s implements Hash" % an)
-                        continue
-                    want = [f["name"] for f in adt["variants"][0]["fields"]]
-                    got = []
-                    transformed = []
-                    for c in hb.calls("re:Hash>::hash$|impl core::hash::Hash for .*>::hash$|^core::hash::Hash::hash$"):
-                        os_ = origins(hb, c.args[0])
-                        fl = [[p_[1:] for p_ in o.proj if p_.startswith(".")] for o in os_ if o.kind in ("place", "param") and o.what == 1]
-                        fl = [x[0] for x in fl if x]
-                        if any(o.kind == "call" for o in os_):
-                            transformed.append(fl[0] if fl else "?")
-                        got.extend(fl[:1])
-                    missing = [f for f in want if f not in got]
-                    r3.check(not missing and not transformed, "Hash:%s" % an.split("::")[-1], "%s::hash feeds every field (%d) to the hasher as is" % (an.split("::")[-1], len(want)),
-                             "the definition hash of %s %s: two pool definitions that differ there compare as unchanged and the old pool is kept after a reload" % (an, ("skips field(s) %s" % missing) if missing else ("hashes a transformed value of %s (e.g. sorted/normalised)" % transformed)))
-                # Config inequality (reload_config's `old_config != new_config`) must look at every field too
-                for an in ("pgcat::config::Config", "pgcat::config::General"):
-                    eb = F.body("<%s as core::cmp::PartialEq>::eq" % an)
-                    adt = F.adts.get(an)
-                    if eb is None or adt is None:
-                        r3.fail("Eq:%s" % an.split("::")[-1], "%s has no PartialEq impl in the crate" % an)
-                        continue
-                    want = {f["name"] for f in adt["variants"][0]["fields"]}
-                    rd = fields_read(eb)
-                    r3.check(want <= rd, "Eq:%s" % an.split("::")[-1], "%s == compares all %d fields" % (an.split("::")[-1], len(want)), "%s == ignores field(s) %s: a reload that changes only those is treated as `no change`" % (an, sorted(want - rd)))
+                for key_, ok_, okm_, fm_ in definition_identity_findings(F):
+                    r3.check(ok_, key_, okm_, fm_)
 
     # ---------------- R4
     r4 = ctx.rule("C14-R4", "Client::handle re-resolves its pool (by database,user) after reading the client's message and before every checkout; a removed pool yields an error return, never another pool", floor=4)
